@@ -32,6 +32,13 @@ func runSelftest(args []string) int {
 	fs.Parse(args)
 	verif := envOr("GOVC_VERIF", "/verif")
 	repo := envOr("GOVC_REPO", "/repo")
+	// every case is checked out at the revision /repo has NOW (a commit made to /repo while the corpus runs must not
+	// change the contract files under a running verifier)
+	if out, err := exec.Command("git", "-C", repo, "rev-parse", "HEAD").Output(); err == nil {
+		selfRev = strings.TrimSpace(string(out))
+	}
+	// a control: the unchanged tree at that revision must pass the checks involved (a corpus run in which the unchanged
+	// tree fails detects nothing)
 	var cases []selfCase
 	dirs, _ := filepath.Glob(filepath.Join(verif, "seeded", "*", "patch.diff"))
 	sort.Strings(dirs)
@@ -87,7 +94,7 @@ func runSelftest(args []string) int {
 			continue
 		}
 		fmt.Printf("%-10s %-28s %s\n", r.status, r.c.Name, r.detail)
-		if r.status == "MISSED" {
+		if r.status == "MISSED" || r.status == "SUSPECT" {
 			miss++
 		}
 	}
@@ -109,7 +116,7 @@ func runSelfCase(self, repo, verif string, c selfCase) (string, string) {
 		out, err := cmd.CombinedOutput()
 		return string(out), err
 	}
-	if out, err := git(repo, "worktree", "add", "-q", "--detach", wt, "HEAD"); err != nil {
+	if out, err := git(repo, "worktree", "add", "-q", "--detach", wt, selfRev); err != nil {
 		return "error", "worktree: " + firstLines(out, 2)
 	}
 	defer func() {
@@ -147,6 +154,9 @@ func runSelfCase(self, repo, verif string, c selfCase) (string, string) {
 		}
 	}
 	code := cmd.ProcessState.ExitCode()
+	if len(viol) > 60 {
+		return "SUSPECT", fmt.Sprintf("%d violation lines: more than any single change explains (verifier and contract files out of step?)", len(viol))
+	}
 	if len(viol) > 0 && code == 1 {
 		d := strings.TrimPrefix(viol[0], "VIOLATION ")
 		d = strings.ReplaceAll(d, filepath.Join(tmp, "out"), "")
@@ -157,5 +167,7 @@ func runSelfCase(self, repo, verif string, c selfCase) (string, string) {
 	}
 	return "MISSED", fmt.Sprintf("exit=%d, no VIOLATION line", code)
 }
+
+var selfRev = "HEAD"
 
 var _ = json.Marshal
